@@ -288,23 +288,10 @@ Definition astar_oracle (g : graph) (dir : N) (from to : N) (r : wres) : bool :=
   if N.eqb from to then match r with WOk [n] [] 0 => N.eqb n from | _ => false end
   else if negb (node_exists g from && node_exists g to) then match r with WNotFound => true | _ => false end
   else wpath_oracle g dir from to r.
-(* known-finding classes of astar_path (see known_findings.txt):
-   class 0 "astar-edge-choice": the weight/edge id of a hop is taken from the FIRST edge of the
-   adjacency list that connects the two nodes in stored orientation (get_astar_edge_weight), so the
-   answer can be wrong when the hop has parallel edges, is an undirected edge stored the other way
-   round, or (direction Both/Incoming) is reached through the other list. *)
-Definition multi_or_reversed (g : graph) (dir : N) : bool :=
-  existsb (fun e => negb (edir e) ||
-                    existsb (fun e' => negb (N.eqb (eid e) (eid e')) &&
-                                       ((N.eqb (efrom e) (efrom e') && N.eqb (eto e) (eto e')) ||
-                                        (N.eqb (efrom e) (eto e') && N.eqb (eto e) (efrom e')))) (gedges g))
-          (gedges g)
-  || N.eqb dir 2.
 Definition astar_case := (graph * N * list (N * N * wres))%type.
 Definition check_astar_item (g : graph) (dir : N) (it : N * N * wres) : N :=
   let '(from, to, r) := it in
-  if negb (astar_oracle g dir from to r) then (if multi_or_reversed g dir then V_KNOWN 0 else V_VIOLATION)
-  else V_OK.
+  if negb (astar_oracle g dir from to r) then V_VIOLATION else V_OK.
 Definition check_astar (c : astar_case) : N :=
   let '(g, dir, items) := c in vall (map (check_astar_item g dir) items).
 
@@ -442,7 +429,6 @@ Definition bicon_blocks_ok (g : graph) (r : bicon_out) : bool :=
 Definition algo_case :=
   (graph * option (list (list N) * bool) * option (list (list N) * bool) * option mst_out
    * option (list (N * N) * N) * option (N * list (N * N)) * option bicon_out)%type.
-(* known-finding classes for the algorithm library are numbered 1.. (0 is the A-star class) *)
 Definition check_algo (c : algo_case) : N :=
   let '(g, scc, wcc, mst, kc, tri, bic) := c in
   vall [
